@@ -4,11 +4,12 @@ A harness executes the REAL fontTools functions on these proxies.  Every
 `bool()` of a symbolic condition is decided by z3 (Ctx.decide) and forks.
 Only imported by the engine interpreter (python3-vt, has z3).
 """
-import sys, time, ast as _ast
+import sys, time, ast as _ast, math as _math
 from fractions import Fraction
 import z3
 
 W = 64
+_INF = float('inf')
 LIM = 1 << 62
 SENTINEL = 0xDEADBEEF
 import os as _os
@@ -368,12 +369,12 @@ class SInt:
     # -- arithmetic
     def __add__(s, o):
         r = s._bin(o, lambda a, b: a + b, lambda a, b, c, d: (a + c, b + d))
-        return SReal(s.as_real_expr()).__add__(o) if r is NotImplemented and rexpr(o) is not None else r
+        return SReal.of_int(s).__add__(o) if r is NotImplemented and rexpr(o) is not None else r
     __radd__ = __add__
 
     def __sub__(s, o):
         r = s._bin(o, lambda a, b: a - b, lambda a, b, c, d: (a - d, b - c))
-        return SReal(s.as_real_expr()).__sub__(o) if r is NotImplemented and rexpr(o) is not None else r
+        return SReal.of_int(s).__sub__(o) if r is NotImplemented and rexpr(o) is not None else r
 
     def __rsub__(s, o):
         oo = SInt.of(o, s)
@@ -560,6 +561,8 @@ class SInt:
 
     # -- comparisons
     def _cmp(s, o, f):
+        if isinstance(o, float) and o in (_INF, -_INF):
+            return SBool(z3.BoolVal(bool(f(0.0, o))))
         if isinstance(o, (float, Fraction, SReal)):
             return SBool(f(s.as_real_expr(), rexpr(o)))
         oo = SInt.of(o, s)
@@ -648,11 +651,28 @@ class SInt:
 
 
 class SReal:
-    """Python float / Fraction stand-in over exact reals (modelling rule R-float)."""
-    __slots__ = ('e',)
+    """Python float / Fraction stand-in over exact reals (modelling rule R-float).
+    lin = (SInt base, Fraction offset) when the value is known to be base + offset: floor/round/trunc of such a value
+    are computed on the integer side, so ints that pass through float code (otRound(x), array('d')) keep their sort."""
+    __slots__ = ('e', 'lin')
 
-    def __init__(self, e):
+    def __init__(self, e, lin=None):
         self.e = e
+        self.lin = lin
+
+    @staticmethod
+    def of_int(x, off=0):
+        off = Fraction(off)
+        e = x.as_real_expr()
+        if off != 0:
+            e = e + z3.Q(off.numerator, off.denominator)
+        return SReal(e, (x, off))
+
+    def _int_from_lin(s, f):
+        """f: Fraction -> int (floor / ceil / ...) applied to the offset; valid when f(base + off) == base + f(off)"""
+        base, off = s.lin
+        k = f(off)
+        return base + k if k else base
 
     @staticmethod
     def var(name, lo=None, hi=None):
@@ -673,11 +693,23 @@ class SReal:
         return SReal(f(s.e, o))
 
     def __add__(s, o):
-        return s._bin(o, lambda a, b: a + b)
+        r = s._bin(o, lambda a, b: a + b)
+        if s.lin is not None and isinstance(o, (int, float, Fraction)) and not isinstance(o, bool) and r is not NotImplemented:
+            try:
+                r.lin = (s.lin[0], s.lin[1] + _frac_of_float(o) if isinstance(o, float) else s.lin[1] + o)
+            except (ValueError, OverflowError):
+                pass
+        return r
     __radd__ = __add__
 
     def __sub__(s, o):
-        return s._bin(o, lambda a, b: a - b)
+        r = s._bin(o, lambda a, b: a - b)
+        if s.lin is not None and isinstance(o, (int, float, Fraction)) and not isinstance(o, bool) and r is not NotImplemented:
+            try:
+                r.lin = (s.lin[0], s.lin[1] - (_frac_of_float(o) if isinstance(o, float) else o))
+            except (ValueError, OverflowError):
+                pass
+        return r
 
     def __rsub__(s, o):
         return s._bin(o, lambda a, b: b - a)
@@ -724,6 +756,8 @@ class SReal:
         return SReal(z3.If(s.e >= 0, s.e, -s.e))
 
     def _cmp(s, o, f):
+        if isinstance(o, float) and o in (_INF, -_INF):
+            return SBool(z3.BoolVal(bool(f(0.0, o))))
         o = rexpr(o)
         if o is None:
             return NotImplemented
@@ -763,20 +797,28 @@ class SReal:
         raise OutOfModel('hash of symbolic real')
 
     def floor_int(s):
+        if s.lin is not None:
+            return s._int_from_lin(_math.floor)
         return SInt(z3.ToInt(s.e), None, None)
 
     def __floor__(s):
         return s.floor_int()
 
     def __ceil__(s):
+        if s.lin is not None:
+            return s._int_from_lin(_math.ceil)
         return SInt(-z3.ToInt(-s.e), None, None)
 
     def __trunc__(s):
+        if s.lin is not None and s.lin[1].denominator == 1:
+            return s._int_from_lin(int)
         return SInt(z3.If(s.e >= 0, z3.ToInt(s.e), -z3.ToInt(-s.e)), None, None)
 
     def __round__(s, n=None):
         if n is not None:
             raise OutOfModel('round(x, ndigits)')
+        if s.lin is not None and s.lin[1].denominator == 1:
+            return s._int_from_lin(int)
         f = z3.ToInt(s.e + z3.Q(1, 2))
         tie = z3.And(z3.ToReal(f) == s.e + z3.Q(1, 2), f % 2 != 0)
         return SInt(z3.If(tie, f - 1, f), None, None)
@@ -791,6 +833,8 @@ class SReal:
         raise TypeError('SReal is not an integer')
 
     def is_integer(s):
+        if s.lin is not None and s.lin[1].denominator == 1:
+            return True
         return SBool(z3.IsInt(s.e))
 
     def __format__(s, spec):
